@@ -306,9 +306,13 @@ def unfold_hint(ip, args, kw):
 
 
 # ------------------------------------------------------------------ havoc
-def havoc_cell(ip, loc, name):
+def havoc_cell(ip, loc, name, kind=None):
     c = ip.st.cell(loc)
     k = c['k']
+    if k == 'list' and 'items' in c and kind is not None:
+        del c['items']
+        c['seq'] = fresh(name + "_seq", kind)
+        return
     if k == 'bytearray':
         c['data'] = fresh(name + "_data", 'bytes')
     elif k == 'bytesio':
@@ -387,7 +391,7 @@ def run_loop(ip, s):
     st = ip.st
     inv = None
     if isinstance(fr.node, (ast.FunctionDef,)) and not st.ghost.get('no_invariants'):
-        inv = ip.reg.invariant_for(fr.qual, loop_ordinal(fr.node, s))
+        inv = ip.reg.invariant_for(fr.qual, getattr(s, '_pyvc_key', None) or loop_ordinal(fr.node, s))
     if isinstance(s, ast.For):
         it = ip.ev(s.iter)
         if isinstance(it, range) and it.step == 1 and it.stop - it.start > 100000:
@@ -493,7 +497,7 @@ def _check_inv(ip, inv, kind, extra, assume=False):
         if assume:
             ip.st.assume(ip.zbool(c))
         else:
-            ip.st.oblige(kind, "%s#loop%d.%d" % (fr.qual, inv.loop, i), ip.zbool(c))
+            ip.st.oblige(kind, "%s#loop%s.%d" % (fr.qual, inv.loop, i), ip.zbool(c))
 
 
 def _havoc_loop(ip, s, inv, extra_names=()):
@@ -509,7 +513,7 @@ def _havoc_loop(ip, s, inv, extra_names=()):
             v = ip.getattr(fr.env[base], attr)
         if not isinstance(v, Loc):
             raise Unsupported("invariant modifies '%s' which is not a heap object" % nm)
-        havoc_cell(ip, v, nm.replace('.', '_'))
+        havoc_cell(ip, v, nm.replace('.', '_'), inv.kinds.get(nm) if not isinstance(inv.kinds.get(nm), api.Builder) else None)
         modified_cells.add(v.id)
     for nm in sorted(names):
         if nm in fr.env:
@@ -589,7 +593,7 @@ def _run_body_then_cut_dec(ip, s, inv, extra, modified, m0):
     _check_inv(ip, inv, 'inv-step', extra)
     if m0 is not None:
         m1 = lift(eval_cfn(ip, inv.decreases, _inv_values(ip, inv, extra)), 'int')
-        ip.st.oblige('decreases', "%s#loop%d" % (fr.qual, inv.loop), z3.And(m0.e >= 0, m1.e < m0.e))
+        ip.st.oblige('decreases', "%s#loop%s" % (fr.qual, inv.loop), z3.And(m0.e >= 0, m1.e < m0.e))
     raise PathEnd()
 
 
@@ -617,7 +621,7 @@ def _for_with_invariant(ip, s, it, inv):
     st.assume(z3.And(i.e >= 0, i.e <= n))
     _check_inv(ip, inv, None, {'_i': i}, assume=True)
     if st.branch(i.e < n, "for: more items"):
-        fr.env['_i%d' % inv.loop] = i
+        fr.env['_i%s' % inv.loop] = i
         ip.assign(s.target, elem(i.e))
         before = {k: dict(v) for k, v in st.heap.items()}
         try:
